@@ -1,6 +1,7 @@
 (* Property theorems of the Gql cluster. Nothing but statements, [exact], and
    Print Assumptions. *)
-From FC Require Import Gql.Model Gql.Proofs38.
+From FC Require Import Gql.Model Gql.Proofs38 Gql.Proofs37 Gql.Proofs36.
+From Coq Require Import Sorting.Permutation.
 Open Scope N_scope.
 
 (* ======================================================================== *)
@@ -112,3 +113,122 @@ Print Assumptions storage_failure_not_masked_refuted.
 Theorem ssortedb_sound : forall l, ssortedb l = true <-> ssorted l.
 Proof. exact ssortedb_iff. Qed.
 Print Assumptions ssortedb_sound.
+
+(* ======================================================================== *)
+(* C37  coins_query.rs.  `world` = the unspent resources (what the owned-coin /
+   owned-message / coins-to-spend indexes list, C36); WF = distinct ids, total
+   amount below 2^128.  Every random draw is a universally quantified argument:
+   `r` (max_dust_count, rng.gen_range) and `shuffled` (inputs.shuffle). *)
+
+(* indexed path: every Ok answer consists of admissible resources only (owner, asset /
+   base-asset non-retryable message, not excluded, listed amount), has no duplicates,
+   at most max entries, and covers the target unless allow_partial - EXCEPT on the class
+   max = 0 /\ target > 0 /\ not partial, where the code answers Ok([]) (refuted below). *)
+Theorem indexed_answer_sound_partial : forall world owner asset base target max partial excl r l,
+  WF world -> max <= u16max -> ~ MaxZeroClass target max partial ->
+  select_coins_to_spend (index_stream world owner asset base) target max partial excl r = COk l ->
+  SelSpec world owner asset base target max partial excl l.
+Proof. exact indexed_answer_sound_all. Qed.
+Print Assumptions indexed_answer_sound_partial.
+
+Theorem indexed_answer_sound_refuted :
+  exists world owner asset base target max partial excl r l,
+    WF world /\ max <= u16max /\
+    select_coins_to_spend (index_stream world owner asset base) target max partial excl r = COk l /\
+    ~ SelSpec world owner asset base target max partial excl l.
+Proof. exact indexed_max_zero_witness. Qed.
+Print Assumptions indexed_answer_sound_refuted.
+
+(* indexed path: an error is InsufficientCoins or MaxCoinsReached (never the internal
+   variants) and is returned only if the `max` largest admissible entries (the index is
+   read in descending key order) do not reach the target; with allow_partial only if
+   they sum to 0. By topk_dominates no other selection of <= max entries does better. *)
+Theorem indexed_error_only_if_infeasible : forall world owner asset base target max partial excl r e,
+  WF world -> max <= u16max -> target <= u128max ->
+  select_coins_to_spend (index_stream world owner asset base) target max partial excl r = CErr e ->
+  (e = 1 \/ e = 2) /\
+  sum_amt (takeN max (filter (ne excl) (rev (index_stream world owner asset base)))) < target /\
+  (partial = true ->
+   sum_amt (takeN max (filter (ne excl) (rev (index_stream world owner asset base)))) = 0).
+Proof. exact indexed_error_only_if_infeasible_all. Qed.
+Print Assumptions indexed_error_only_if_infeasible.
+
+Theorem largest_first_answer_sound : forall world owner asset base target max partial excl l,
+  WF world ->
+  largest_first (coins_stream world owner asset base excl) target max partial = COk l ->
+  SelSpec world owner asset base target max partial excl l.
+Proof. exact largest_first_answer_sound_all. Qed.
+Print Assumptions largest_first_answer_sound.
+
+Theorem random_improve_answer_sound : forall world owner asset base target max partial excl shuffled l,
+  WF world -> Permutation shuffled (coins_stream world owner asset base excl) ->
+  random_improve (coins_stream world owner asset base excl) shuffled target max partial = COk l ->
+  SelSpec world owner asset base target max partial excl l.
+Proof. exact random_improve_answer_sound_all. Qed.
+Print Assumptions random_improve_answer_sound.
+
+Theorem nonindexed_error_only_if_infeasible :
+  forall world owner asset base target max partial excl shuffled e,
+  WF world ->
+  (largest_first (coins_stream world owner asset base excl) target max partial = CErr e \/
+   random_improve (coins_stream world owner asset base excl) shuffled target max partial = CErr e) ->
+  (e = 1 \/ e = 2) /\
+  topk_sum max (coins_stream world owner asset base excl) < target /\
+  (partial = true -> topk_sum max (coins_stream world owner asset base excl) = 0).
+Proof. exact nonindexed_error_only_if_infeasible_all. Qed.
+Print Assumptions nonindexed_error_only_if_infeasible.
+
+(* in a list that is descending by amount, no sub-selection of at most k entries has a
+   larger total than the first k entries *)
+Theorem topk_dominates : forall l, desc l -> forall s k, subseq s l -> lenN s <= k ->
+  sum_amt s <= sum_amt (takeN k l).
+Proof. exact topk_dominates_all. Qed.
+Print Assumptions topk_dominates.
+
+Theorem sel_code_sound : forall world owner asset base target max partial excl r,
+  NoDup (map rid world) ->
+  sel_code world owner asset base target max partial excl r = 1 <->
+  OutcomeSpec world owner asset base target max partial excl r.
+Proof. exact sel_code_sound_all. Qed.
+Print Assumptions sel_code_sound.
+
+(* ======================================================================== *)
+(* C36  process_executor_events with balances and coins-to-spend indexation enabled.
+   Ghost state: the unspent set of the history (creation adds, consumption removes).
+   A history is consistent if every creation is fresh among the unspent resources of its
+   kind and every consumption names an unspent resource with its exact data (what the
+   executor guarantees, C02).  created_sum <= 2^128-1 rules out u128 saturation. *)
+
+(* For every consistent history: no indexation error occurs at any event (underflow /
+   not-found / already-indexed are unreachable), and after EVERY event the tables satisfy
+   Inv w.r.t. the unspent set u:
+     CoinBalances(owner, asset)  = sum of the unspent coins of (owner, asset)   [every key]
+     MessageBalances(owner)      = (sum of unspent retryable, sum of unspent non-retryable
+                                    messages of owner)                          [every key]
+     CoinsToSpendIndex           = exactly { cts_key r | r unspent }  (flag 0 retryable message,
+                                    flag 1 otherwise; base asset for messages)
+     OwnedCoins / OwnedMessageIds = exactly the unspent coins / messages by (owner, id). *)
+Theorem index_eq_utxo : forall base evs,
+  consistentb [] evs = true -> created_sum evs <= u128max ->
+  Forall (fun p => snd p = None) (process_events true true base o_empty evs) /\
+  TraceInv base [] evs (map fst (process_events true true base o_empty evs)).
+Proof. exact index_eq_utxo_all. Qed.
+Print Assumptions index_eq_utxo.
+
+(* one step, from any state satisfying the invariant (the inductive core) *)
+Theorem index_step : forall base s u ev,
+  Inv base s u -> consistent_step u ev = true -> total (ghost_step u ev) <= u128max ->
+  snd (process_event true true base s ev) = None /\
+  Inv base (fst (process_event true true base s ev)) (ghost_step u ev).
+Proof. exact step_inv. Qed.
+Print Assumptions index_step.
+
+(* the decidable checker evaluated on the implementation's table dumps *)
+Theorem trace_code_complete : forall base evs u sts,
+  TraceInv base u evs sts -> trace_code true true base u evs sts = 1.
+Proof. exact trace_code_complete_all. Qed.
+Print Assumptions trace_code_complete.
+
+Theorem inv_code_sound : forall base s u, inv_code true true base s u = 1 <-> InvFin base s u.
+Proof. exact inv_code_sound_all. Qed.
+Print Assumptions inv_code_sound.
